@@ -53,6 +53,8 @@ CAT = {
     'Rsi': ('c', lambda r, h: ([P(r, h)], []), ([14], [])),
     'StochasticOscillator': ('hlc', lambda r, h: ([P(r, h), P(r, 6)], []), ([14, 3], [])),
     'StochasticRsi': ('c', lambda r, h: ([P(r, h)], []), ([14], [])),
+    # StochasticRsi whose public Rsi field has another period than the min/max look-back: [RSI period, look-back]
+    'StochasticRsiG': ('c', lambda r, h: ([P(r, h), P(r, h)], []), ([16, 14], [])),
     'WilliamsR': ('hlc', lambda r, h: ([P(r, h)], []), ([14], [])),
     'AccelerationBands': ('hlc', lambda r, h: ([P(r, h)], []), ([20], [])),
     'Atr': ('hlc', lambda r, h: ([r.choice(MA_KINDS), P(r, h)], []), ([0, 14], [])),
@@ -61,6 +63,8 @@ CAT = {
     'ChandelierExit': ('hlc', lambda r, h: ([P(r, h)], [r.choice([3.0, 1.0, 2.5, 0.5])]), ([22], [3.0])),
     'DonchianChannel': ('c', lambda r, h: ([P(r, h)], []), ([20], [])),
     'KeltnerChannel': ('hlc', lambda r, h: ([P(r, h)], []), ([20], [])),
+    # KeltnerChannel with its public Atr / Ema fields configured separately: [ATR moving-average kind, ATR period, EMA period <= ATR period]
+    'KeltnerChannelG': ('hlc', lambda r, h: (lambda k, ap: ([k, ap, r.randrange(1, ap + 1)], []))(r.choice(MA_KINDS), P(r, h)), ([0, 20, 10], [])),
     'MovingStd': ('n', lambda r, h: ([P(r, h)], []), ([20], [])),
     'PercentB': ('c', lambda r, h: ([P(r, h)], []), ([20], [])),
     'Po': ('hlc', lambda r, h: ([P(r, h) + 1], []), ([14], [])),
@@ -78,7 +82,7 @@ CAT = {
     'Vpt': ('cv', lambda r, h: ([], []), ([], [])),
     'Vwap': ('cv', lambda r, h: ([P(r, h)], []), ([14], [])),
 }
-assert len(CAT) == 61
+assert len(CAT) == 63      # the 61 Compute methods + 2 component-wise configurations (…G)
 
 # indicators without an IdlePeriod method: warm-up implied by the formula (as registered in the Lean Registry)
 NO_IDLE_METHOD = {'Apo', 'Aroon', 'Bop', 'TypicalPrice'}
